@@ -219,3 +219,25 @@ theorem Votca.C12R.outFlags_at_input_point (pre post : List (Rat × Char)) (x : 
 
 
 end Votca.C12
+
+theorem Votca.C12R.getD_map_range (f : Nat → Rat) (n i : Nat) (h : i < n) : ((List.range n).map f).getD i 0 = f i := by
+  simp [List.getD_eq_getElem?_getD, h]
+
+open Votca.C12R Votca.C12 in
+/-- **periodic Akima boundaries: the two ends carry the same slope** (they are one point of the periodic function; with `y(N-1) = y(0)`
+    value and slope join) — about the slopes `AkimaSpline::Interpolate` assigns in periodic mode (model `akimaSlopes true`) -/
+theorem Votca.C12R.akima_periodic_end_slopes_equal (xs ys : List Rat) (h : 4 ≤ xs.length) :
+    nth (akimaSlopes true xs ys) 0 = nth (akimaSlopes true xs ys) (xs.length - 1) := by
+  unfold akimaSlopes
+  simp only [if_true]
+  unfold nth
+  rw [getD_map_range _ _ _ (by omega : 0 < xs.length), getD_map_range _ _ _ (by omega : xs.length - 1 < xs.length)]
+  have e1 : ((xs.length - 1 == 0) = false) := by simp; omega
+  have e2 : ((xs.length - 1 == 1) = false) := by simp; omega
+  have e3 : ((xs.length - 1 + 2 == xs.length) = false) := by simp; omega
+  have e4 : ((xs.length - 1 + 1 == xs.length) = true) := by simp; omega
+  simp [e1, e2, e3, e4]
+
+/-! non-vacuity / a concrete instance: five points of a periodic data set -/
+example : Votca.C12.nth (Votca.C12R.akimaSlopes true [0, 1, 2, 3, 4] [1, 3, 0, 2, 1]) 0 = Votca.C12.nth (Votca.C12R.akimaSlopes true [0, 1, 2, 3, 4] [1, 3, 0, 2, 1]) 4 := by
+  decide +kernel
